@@ -25,6 +25,15 @@ func (x *extractor) genGuards(b *strings.Builder) {
 		{"sig7", "Cell.GetAggregateRange"}, {"sig7", "Cell.GetAggregatePhaseRange"}, {"sig7", "Cell.GetAggregatePhaseRangeRate"},
 		{"cq", "CircularQueue.Add"}, {"cq", "CircularQueue.GetMessages"},
 		{"rf", "Sanitise"},
+		// the applications and the plumbing around the library
+		{"fh", "Handler.Handle"}, {"appcore", "AppCore.HandleMessagesUntilEOF"},
+		{"filter", "HandleMessages"}, {"filter", "writeRTCMMessages"}, {"filter", "writeReadableMessages"},
+		{"display", "HandleMessages"}, {"display", "DisplayMessages"},
+		{"logger", "start"}, {"logger", "readAndWrite"}, {"logger", "recorder"}, {"logger", "writeRTCMLog"},
+		{"proxy", "handleClientMessages"}, {"proxy", "handleServerMessages"}, {"proxy", "keepCircularQueueUpdated"},
+		{"rf", "ReportFeed.Status"},
+		{"handler", "Analyse"}, {"handler", "analyseMSM4"}, {"handler", "analyseMSM7"}, {"handler", "analyse1005"}, {"handler", "analyse1006"},
+		{"handler", "Message.String"}, {"handler", "Message.Copy"}, {"handler", "Message.displayable"},
 	}
 	for _, f := range fns {
 		_, fd := x.fn(f.alias, f.name)
@@ -63,5 +72,39 @@ func (x *extractor) genGuards(b *strings.Builder) {
 			return true
 		})
 		fmt.Fprintf(b, "def %s : Option (List String) := some [%s]\n", name, quoteJoin(conds))
+	}
+	// effects: the writes through pointers/fields/indices and the calls made for their effect, in
+	// source order, of the functions that fill in or display a message (hidden state, accumulation
+	// and aliasing would have to show up here)
+	for _, f := range []fn{{"handler", "Analyse"}, {"handler", "analyseMSM4"}, {"handler", "analyseMSM7"}, {"handler", "analyse1005"}, {"handler", "analyse1006"},
+		{"handler", "Message.String"}, {"handler", "Message.Copy"}, {"handler", "NewMessage"}, {"handler", "NewNonRTCM"}} {
+		_, fd := x.fn(f.alias, f.name)
+		name := leanIdent("effects_" + f.alias + "_" + f.name)
+		if fd == nil || fd.Body == nil {
+			fmt.Fprintf(b, "def %s : Option (List String) := none\n", name)
+			continue
+		}
+		var eff []string
+		ast.Inspect(fd.Body, func(n ast.Node) bool {
+			switch s := n.(type) {
+			case *ast.AssignStmt:
+				for i, l := range s.Lhs {
+					switch l.(type) {
+					case *ast.SelectorExpr, *ast.IndexExpr, *ast.StarExpr:
+						rhs := ""
+						if i < len(s.Rhs) {
+							rhs = exprText(s.Rhs[i])
+						}
+						eff = append(eff, exprText(l)+" "+s.Tok.String()+" "+rhs)
+					}
+				}
+			case *ast.ExprStmt:
+				eff = append(eff, "call "+exprText(s.X))
+			case *ast.IncDecStmt:
+				eff = append(eff, exprText(s.X)+s.Tok.String())
+			}
+			return true
+		})
+		fmt.Fprintf(b, "def %s : Option (List String) := some [%s]\n", name, quoteJoin(eff))
 	}
 }
